@@ -107,6 +107,10 @@ def cases(tier, seed):
                     continue
                 i += 1
                 yield {"id": i, "fam": "layout", "src": "gen", "ver": ver, "gseed": "%d-%d" % (seed, n), "tf": tf, "dense": n % 2 == 0, "seed": "%d-%d" % (seed, n)}
+    # ---- (b') directed: arrangements of import statements
+    for n in range(40 if quick else 400):
+        i += 1
+        yield {"id": i, "fam": "robust", "ver": "2.x", "kind": "imports", "seed": "%d-%d" % (seed, n)}
     # ---- (b) robustness
     nrob = 6000 if quick else 80000
     rng = random.Random("c13-cases-%d" % seed)
@@ -172,6 +176,33 @@ def setup_worker():
             if n.startswith("nemoguardrails"):
                 raise
     _W["codes"] = steps.install(mods)
+    # the loader's own loops (import resolution, directory walk) make no calls into the parser while they spin:
+    # count their jumps too (sys.monitoring JUMP events, local to these code objects)
+    import sys as _sys
+
+    mon = _sys.monitoring
+    try:
+        mon.use_tool_id(5, "vp-c13-loader-jumps")
+    except ValueError:
+        pass
+    _W["jumps"] = {"n": 0, "budget": None}
+
+    def on_jump(code, src, dst):
+        j = _W["jumps"]
+        j["n"] += 1
+        if j["budget"] is not None and j["n"] > j["budget"]:
+            j["budget"] = None
+            raise steps.StepBudgetExceeded("loader loop in %s made more than %d jumps" % (code.co_name, j["n"] - 1))
+
+    mon.register_callback(5, mon.events.JUMP, on_jump)
+    njump = 0
+    for fname_ in ("_load_imported_paths", "_load_path", "_join_config", "_parse_colang_files_recursively"):
+        fn_ = getattr(cfgmod, fname_, None)
+        if fn_ is not None:
+            mon.set_local_events(5, fn_.__code__, mon.events.JUMP)
+            njump += 1
+    if njump < 3:
+        raise RuntimeError("loader functions to watch vanished from rails/llm/config.py (%d found)" % njump)
     _W["code_objects"] = [co for m_ in mods for co in steps._code_objects(m_)]
     # observation point: the loader's own call of parse_colang_file (looked up through module globals)
     real_parse = cfgmod.parse_colang_file
@@ -440,6 +471,21 @@ def _robust_text(case):
     ver = case["ver"]
     if case["kind"] == "soup":
         return g.soup(ver, rng, _W["terminals"]), None, ver
+    if case["kind"] == "imports":
+        # arrangements of import lines (repeated, unresolvable, late, spelled twice): the file must load or be rejected
+        # as a parsing error - the import resolution loop must end either way
+        mods = ["core", "timing", "llm", "guardrails", "avatars"]
+        picks = [rng.choice(mods) for _ in range(rng.randint(1, 3))]
+        picks.insert(rng.randint(0, len(picks)), rng.choice(picks))  # one module is named twice
+        if rng.random() < 0.2:
+            picks.insert(rng.randint(0, len(picks)), rng.choice(["utils", "no_such_module_qq"]))  # and sometimes one cannot be resolved
+        lines = ["import %s" % m_ for m_ in picks]
+        if rng.random() < 0.3:
+            lines.insert(rng.randint(0, len(lines)), "")
+        body = "flow main\n  match Never()\n"
+        if rng.random() < 0.25:
+            body += "\nimport %s\n" % rng.choice(mods)
+        return "\n".join(lines) + "\n\n" + body, None, "2.x"
     seed_text = None
     if not case.get("gen") and case.get("path"):
         text, fver, _b, _p = _base_for_file(case["path"])
@@ -559,6 +605,7 @@ def run_robust(case):
     outcome = None
     info = {}
     steps.start(_W["lib_budget"])
+    _W["jumps"].update(n=0, budget=2_000_000)
     try:
         from nemoguardrails import RailsConfig
 
@@ -580,9 +627,14 @@ def run_robust(case):
         info = {"exc_type": type(e).__name__, "raiser_file": fn, "raiser": func, "message": str(e)[:300]}
     finally:
         steps.stop()
+        _W["jumps"]["budget"] = None
     used = _W["file_steps"]
     if outcome == "step-budget":
-        info["loop_frame"] = _loop_frame(content, ver)
+        msg_ = info.get("message", "")
+        if msg_.startswith("loader loop in "):
+            info["loop_frame"] = "config.py:" + msg_[len("loader loop in "):].split(" ")[0]
+        else:
+            info["loop_frame"] = _loop_frame(content, ver)
     reached = len(_W["parse_calls"])
     parsed_really = any(_W["parse_calls"])
     obs = {
